@@ -136,30 +136,61 @@ Proof.
 Qed.
 
 (* ---- the configuration set ---- *)
+Definition std_config (T : tables) (c : config) : Prop :=
+  c_extra c = [] /\ In (c_pol c) (t_supported T) /\ In (c_mode c) modes /\
+  0 < level_of (t_levels T) (c_pol c) (c_mode c) /\
+  In (c_kb c, c_skb c) (key_pairs T (c_pol c) (c_mode c)) /\ token_advertised T c = true.
+
+Definition none_cell (T : tables) (c : config) : Prop :=
+  exists xpol xm, c_extra c = [{| sc_pol := xpol; sc_mode := xm |}] /\ c_pol c = "None" /\ c_mode c = 1 /\ c_kb c = 0 /\
+    In xpol (t_supported T) /\ String.eqb xpol "None" = false /\ In xm modes /\ 0 < level_of (t_levels T) xpol xm /\
+    In (c_skb c) key_sizes /\ asym_accept (t_rows T) xpol 0 (c_skb c) = true /\ token_advertised T c = true.
+
 Lemma in_configs_of_policy : forall T pol c,
-  In c (configs_of_policy T pol) <->
-  c_pol c = pol /\ In (c_mode c) modes /\ 0 < level_of (t_levels T) pol (c_mode c) /\
-  In (c_kb c, c_skb c) (key_pairs T pol (c_mode c)) /\ token_advertised T c = true.
+  In c (configs_of_policy T pol) <-> c_pol c = pol /\ c_extra c = [] /\ In (c_mode c) modes /\
+  0 < level_of (t_levels T) pol (c_mode c) /\ In (c_kb c, c_skb c) (key_pairs T pol (c_mode c)) /\ token_advertised T c = true.
 Proof.
   intros T pol c. unfold configs_of_policy. rewrite in_flat_map. split.
   - intros [m [Hm H]]. destruct (0 <? level_of (t_levels T) pol m) eqn:El; [|destruct H].
     apply in_flat_map in H. destruct H as [kp [Hkp H]]. apply in_flat_map in H. destruct H as [t [Ht H]].
     cbv zeta in H.
-    destruct (token_advertised T {| c_pol := pol; c_mode := m; c_kb := fst kp; c_skb := snd kp; c_tok := t |}) eqn:Ea; [|destruct H].
-    destruct H as [H|[]]. subst c. cbn [c_pol c_mode c_kb c_skb c_tok].
-    apply Z.ltb_lt in El. rewrite <- surjective_pairing. auto.
-  - intros [Hp [Hm [Hl [Hk Ha]]]]. exists (c_mode c). split; [exact Hm|].
+    destruct (token_advertised T {| c_pol := pol; c_mode := m; c_kb := fst kp; c_skb := snd kp; c_tok := t; c_extra := [] |}) eqn:Ea; [|destruct H].
+    destruct H as [H|[]]. subst c. cbn [c_pol c_mode c_kb c_skb c_tok c_extra].
+    apply Z.ltb_lt in El. rewrite <- surjective_pairing. auto 10.
+  - intros [Hp [Hx [Hm [Hl [Hk Ha]]]]]. exists (c_mode c). split; [exact Hm|].
     apply Z.ltb_lt in Hl. rewrite Hl. apply in_flat_map. exists (c_kb c, c_skb c). split; [exact Hk|].
     apply in_flat_map. exists (c_tok c). split; [destruct (c_tok c); cbn; auto|].
-    cbv zeta. destruct c as [p m k sk t]. cbn [c_pol c_mode c_kb c_skb c_tok fst snd] in *. subst p. rewrite Ha. left. reflexivity.
+    cbv zeta. destruct c as [p m k sk t x]. cbn [c_pol c_mode c_kb c_skb c_tok c_extra fst snd] in *. subst p x. rewrite Ha. left. reflexivity.
 Qed.
 
-Lemma in_all_configs : forall T c,
-  In c (all_configs T) <->
-  In (c_pol c) (t_supported T) /\ In (c_mode c) modes /\ 0 < level_of (t_levels T) (c_pol c) (c_mode c) /\
-  In (c_kb c, c_skb c) (key_pairs T (c_pol c) (c_mode c)) /\ token_advertised T c = true.
+Lemma in_none_cells_of : forall T xpol c,
+  In c (none_cells_of T xpol) <->
+  String.eqb xpol "None" = false /\ exists xm, c_extra c = [{| sc_pol := xpol; sc_mode := xm |}] /\ c_pol c = "None" /\
+    c_mode c = 1 /\ c_kb c = 0 /\ In xm modes /\ 0 < level_of (t_levels T) xpol xm /\ In (c_skb c) key_sizes /\
+    asym_accept (t_rows T) xpol 0 (c_skb c) = true /\ token_advertised T c = true.
 Proof.
-  intros T c. unfold all_configs. rewrite in_flat_map. split.
-  - intros [pol [Hs H]]. apply in_configs_of_policy in H. destruct H as [Hp H]. subst pol. auto.
-  - intros [Hs H]. exists (c_pol c). split; [exact Hs|]. apply in_configs_of_policy. auto.
+  intros T xpol c. unfold none_cells_of. destruct (String.eqb xpol "None") eqn:En.
+  - split; [intros []|intros [H _]; discriminate].
+  - rewrite in_flat_map. split.
+    + intros [xm [Hm H]]. split; [reflexivity|]. destruct (0 <? level_of (t_levels T) xpol xm) eqn:El; [|destruct H].
+      apply in_flat_map in H. destruct H as [skb [Hs H]]. apply filter_In in Hs. destruct Hs as [Hs1 Hs2].
+      apply in_flat_map in H. destruct H as [t [Ht H]]. cbv zeta in H.
+      destruct (token_advertised T _) eqn:Ea in H; [|destruct H]. destruct H as [H|[]]. subst c.
+      cbn [c_pol c_mode c_kb c_skb c_tok c_extra]. apply Z.ltb_lt in El. exists xm. auto 12.
+    + intros [_ [xm [Hx [Hp [Hmo [Hk [Hm [Hl [Hs [Hacc Ha]]]]]]]]]]. exists xm. split; [exact Hm|].
+      apply Z.ltb_lt in Hl. rewrite Hl. apply in_flat_map. exists (c_skb c). split; [apply filter_In; auto|].
+      apply in_flat_map. exists (c_tok c). split; [destruct (c_tok c); cbn; auto|].
+      cbv zeta. destruct c as [p m k sk t x]. cbn [c_pol c_mode c_kb c_skb c_tok c_extra] in *. subst p m k x. rewrite Ha. left. reflexivity.
+Qed.
+
+Lemma in_all_configs : forall T c, In c (all_configs T) <-> std_config T c \/ none_cell T c.
+Proof.
+  intros T c. unfold all_configs. rewrite in_app_iff, !in_flat_map. split.
+  - intros [[pol [Hs H]]|[xpol [Hs H]]].
+    + left. apply in_configs_of_policy in H. destruct H as [Hp [Hx H]]. subst pol. unfold std_config. auto.
+    + right. apply in_none_cells_of in H. destruct H as [Hn [xm H]]. exists xpol, xm.
+      destruct H as [A [B [C [D [E [F [G [I J]]]]]]]]. auto 14.
+  - intros [[Hx [Hs H]]|[xpol [xm [A [B [C [D [E [F [G [I [J [K L]]]]]]]]]]]]].
+    + left. exists (c_pol c). split; [exact Hs|]. apply in_configs_of_policy. auto.
+    + right. exists xpol. split; [exact E|]. apply in_none_cells_of. split; [exact F|]. exists xm. auto 12.
 Qed.
